@@ -55,7 +55,8 @@ theorem view_agree {t : T} {h h' : Heap} (hc : h t.cur = h' t.cur)
     cases hlast : t.last with
     | none => rfl
     | some a => simp [hl a hlast]
-  simp only [view, hc, e2, e3, e4, e5]
+  simp only [view]
+  rw [e2, e4, e3, e5, hc]
 
 /-- status of one thread w.r.t. the shared heap: it has not started (its next instruction is the initial copy),
     or it satisfies the post-copy invariant -/
@@ -147,5 +148,71 @@ theorem runN_succ {w : Who} {h : Heap} {p : Nat} {prog : List Instr} {n : Nat} {
 structure Solo (w wo : Who) (h0 : Heap) (p : Nat) (prog : List Instr) (th : Thread) (h : Heap) : Prop where
   ex : ∃ n, th.t = (runN w h0 p prog n).1 ∧ th.rest = prog.drop n ∧ n ≤ prog.length ∧
         ∀ x, ¬ Cls wo x → h x = (runN w h0 p prog n).2 x
+
+/-- one step of thread `w` in the interleaved execution, as seen by itself, by the other thread `wo` and by the caller -/
+theorem conc_step {w wo : Who} (hbase : wo.base = w.base) (hdis : ∀ x, Cls w x → Cls wo x → False)
+    {h0 h : Heap} {p : Nat} (hb : Base h0 w.base p) {prog progo : List Instr} {a o : Thread}
+    (hf : ∀ x, x < w.base → h x = h0 x) (hpa : Ph w p a h) (hpo : Ph wo p o h)
+    (hsa : Solo w wo h0 p prog a h) (hso : Solo wo w h0 p progo o h) {i : Instr} {is : List Instr}
+    (hr : a.rest = i :: is) :
+    (∀ x, x < w.base → (step w (a.t, h) i).2 x = h0 x) ∧
+    Ph w p ⟨(step w (a.t, h) i).1, is⟩ (step w (a.t, h) i).2 ∧ Ph wo p o (step w (a.t, h) i).2 ∧
+    Solo w wo h0 p prog ⟨(step w (a.t, h) i).1, is⟩ (step w (a.t, h) i).2 ∧
+    Solo wo w h0 p progo o (step w (a.t, h) i).2 := by
+  obtain ⟨hpa', hother⟩ := ph_step hb hf hpa hr
+  have hold : ∀ x, x < w.base → ¬ Cls w x := fun x hx hc => by have := cls_base hc; omega
+  have holdo : ∀ x, x < w.base → ¬ Cls wo x := fun x hx hc => by have := cls_base hc; omega
+  refine ⟨fun x hx => by rw [hother x (hold x hx)]; exact hf x hx, hpa',
+    ph_other hpo (fun x hx => hother x (fun hc => hdis x hc hx)), ?_, ?_⟩
+  · obtain ⟨n, hat, har, _, hag⟩ := hsa.ex
+    have hd : prog.drop n = i :: is := by rw [← har, hr]
+    obtain ⟨hsucc, hdrop⟩ := runN_succ (w := w) (h := h0) (p := p) hd
+    have hlen : n + 1 ≤ prog.length := by
+      have : (prog.drop n).length = (i :: is).length := by rw [hd]
+      simp at this; omega
+    have hview : view a.t h = view a.t (runN w h0 p prog n).2 :=
+      ph_view hb hf hpa (fun x hx => hag x (by
+        rcases hx with hx | hx
+        · exact holdo x hx
+        · exact fun hc => hdis x hx hc))
+    refine ⟨n + 1, ?_, hdrop.symm, hlen, ?_⟩
+    · rw [hsucc]; simp only [step]; rw [← hat, hview]
+    · intro x hx
+      rw [hsucc]
+      simp only [step]
+      rw [← hat, ← hview]
+      exact applyEffs_agree (P := fun x => ¬ Cls wo x) _ hag x hx
+  · obtain ⟨n, hot, hor, hlen, hag⟩ := hso.ex
+    exact ⟨n, hot, hor, hlen, fun x hx => by rw [hother x hx]; exact hag x hx⟩
+
+theorem conc_inv {b p : Nat} {h0 : Heap} (hb : Base h0 b p) {prog1 prog2 : List Instr} :
+    ∀ (σ : List Bool) (a o : Thread) (h : Heap),
+      (∀ x, x < b → h x = h0 x) → Ph ⟨b, 0⟩ p a h → Ph ⟨b, 1⟩ p o h →
+      Solo ⟨b, 0⟩ ⟨b, 1⟩ h0 p prog1 a h → Solo ⟨b, 1⟩ ⟨b, 0⟩ h0 p prog2 o h →
+      (∀ x, x < b → (runConc ⟨b, 0⟩ ⟨b, 1⟩ σ a o h).2.2 x = h0 x) ∧
+      Solo ⟨b, 0⟩ ⟨b, 1⟩ h0 p prog1 (runConc ⟨b, 0⟩ ⟨b, 1⟩ σ a o h).1 (runConc ⟨b, 0⟩ ⟨b, 1⟩ σ a o h).2.2 ∧
+      Solo ⟨b, 1⟩ ⟨b, 0⟩ h0 p prog2 (runConc ⟨b, 0⟩ ⟨b, 1⟩ σ a o h).2.1 (runConc ⟨b, 0⟩ ⟨b, 1⟩ σ a o h).2.2 := by
+  intro σ
+  induction σ with
+  | nil => intro a o h hf _ _ hsa hso; exact ⟨hf, hsa, hso⟩
+  | cons c σ ih =>
+    intro a o h hf hpa hpo hsa hso
+    cases c with
+    | true =>
+      cases hr : a.rest with
+      | nil => simp only [runConc, hr]; exact ih a o h hf hpa hpo hsa hso
+      | cons i is =>
+        simp only [runConc, hr]
+        obtain ⟨hf', hpa', hpo', hsa', hso'⟩ :=
+          conc_step (w := ⟨b, 0⟩) (wo := ⟨b, 1⟩) rfl (fun x => cls_disjoint) hb hf hpa hpo hsa hso hr
+        exact ih _ _ _ hf' hpa' hpo' hsa' hso'
+    | false =>
+      cases hr : o.rest with
+      | nil => simp only [runConc, hr]; exact ih a o h hf hpa hpo hsa hso
+      | cons i is =>
+        simp only [runConc, hr]
+        obtain ⟨hf', hpo', hpa', hso', hsa'⟩ :=
+          conc_step (w := ⟨b, 1⟩) (wo := ⟨b, 0⟩) rfl (fun x h1 h2 => cls_disjoint h2 h1) hb hf hpo hpa hso hsa hr
+        exact ih _ _ _ hf' hpa' hpo' hsa' hso'
 
 end Uberjob.Heap
